@@ -52,7 +52,9 @@ def make_src(mode, h, w, defined, base):
         if mode == "RGB":
             a[y, x] = (v % 256, (v + 50) % 256, (v + 100) % 256)
         elif mode == "RGBA":
-            a[y, x] = (v % 256, (v + 50) % 256, (v + 100) % 256, 200 + k if defined[k] else 0)
+            # alpha above the destination's (150 + k) for even pixels, far below it for odd ones: a defined source
+            # pixel replaces the old value whatever the two opacities are
+            a[y, x] = (v % 256, (v + 50) % 256, (v + 100) % 256, (200 + k if k % 2 == 0 else 20 + k) if defined[k] else 0)
         elif mode in ("F32", "F64"):
             # +-inf are defined values (only NaN is undefined)
             a[y, x] = (np.inf if k % 5 == 1 else (-np.inf if k % 5 == 3 else v + 0.5)) if defined[k] else np.nan
